@@ -129,6 +129,9 @@ var deanchored = []string{
 	"(*" + modulePath + "/internal/server.Buffer).discardSpill",
 	"(*" + modulePath + "/internal/server.Router).findOrCreateService",
 	"(*" + modulePath + "/internal/cmd.listCommand).displayResponse",
+	"(*" + modulePath + "/internal/server.Buffer).writeToMemory",
+	"(*" + modulePath + "/internal/server.Buffer).writeToDisk",
+	"(*" + modulePath + "/internal/server.TargetOptions).canonicalizeLogHeaders",
 	"(*" + modulePath + "/internal/server.RolloutController).splitValue",
 	"(*" + modulePath + "/internal/server.RolloutController).valueInAllowlist",
 	"(*" + modulePath + "/internal/server.RolloutController).valueInRolloutPercentage",
